@@ -131,6 +131,19 @@ func c16Eval(c c16Case) (class, detail string) {
 		if !isQuotedLoose(e.String()) {
 			return "not-quoted", e.String()
 		}
+		// the same text in a conditional header: an entity tag, never the wildcard, equal to itself only
+		cm := webdav.ConditionalMatch(e.String())
+		if cm.IsWildcard() || !cm.IsSet() {
+			return "header-form-read-as-wildcard", e.String()
+		}
+		if c.In != "" {
+			if ok, err := cm.MatchETag(c.In); err != nil || !ok {
+				return "header-form-does-not-match-itself", fmt.Sprintf("MatchETag(%q)=%v,%v", c.In, ok, err)
+			}
+			if ok, err := cm.MatchETag(c.In + "x"); err != nil || ok {
+				return "header-form-matches-another-tag", fmt.Sprintf("%s MatchETag(%q)=%v,%v", e.String(), c.In+"x", ok, err)
+			}
+		}
 		// through XML (getetag)
 		xb, err := xml.Marshal(&internal.GetETag{ETag: e})
 		if err != nil {
